@@ -497,6 +497,15 @@ theorem no_stream_lost (evs : List SEv) (hreal : ∀ e ∈ evs, e.real = true) :
       | del => cases he
   exact key _ (by intro i hi; cases hi) hreal
 
+/-- a session's sends are part of its control flow: they all come before its final release, so after that release
+    nothing is registered under the id (holds by unfolding: `release` empties the entry) … -/
+theorem sends_before_release_leave_nothing (evs : List SEv) : (SMgr.run (evs ++ [.release])).reg = [] := by
+  simp [SMgr.run, List.foldl_append, SMgr.step]
+
+/-- … whereas a send that outlives the session (a fire-and-forget reply still dialling when Execute cleans up; corpus
+    line `sess a:p:1:slowdial`) registers its stream after the release, where nobody releases it any more -/
+theorem send_after_release_stays : (SMgr.run [.add 1, .release, .add 2]).reg = [2] := by decide
+
 /-- the seeded variant re-derived (corpus line `latesend -`): a stream registered between the snapshot and the delete
     is dropped unclosed -/
 theorem snapshot_release_loses : ¬ (SMgr.run [.add 1, .snap, .add 2, .closeSnap, .del]).NoneLost := by decide
